@@ -61,6 +61,7 @@ JConst(v) == [t |-> "string", v |-> v]           \* a string whose value matters
 JArr(items) == [t |-> "array", items |-> items]
 JObj(f) == [t |-> "object", f |-> f]
 JShallow(ty) == [t |-> ty, shallow |-> TRUE]     \* a value of which only the JSON type is tracked
+JIntAfter == [t |-> "integer", v |-> "after"]    \* an end line number greater than the start line number
 JRaise(exc, key) == [t |-> "raise", exc |-> exc, key |-> key]
 NoKV == <<>>
 Opt(cond, k, v) == IF cond THEN k :> v ELSE NoKV
@@ -233,8 +234,9 @@ RECURSIVE LoadExpr(_, _)
 LoadExpr(key, j) ==
   CASE j.t = "null"    -> NoneN
     [] j.t = "boolean" -> BoolN
+    \* (ExprParameter: expression["kind"] = ParameterKind(expression["kind"]) - the enum is restored)
     [] j.t = "string"  -> IF key = "kind"
-                          THEN (IF j.v = "positional-only" THEN PK("str", "posonly") ELSE PK("str", "poskw"))
+                          THEN (IF j.v = "positional-only" THEN PK("enum", "posonly") ELSE PK("enum", "poskw"))
                           ELSE S
     [] j.t = "array"   -> IF key = "operators" THEN StrsN ELSE NoneN     \* (list fields are handled by the caller)
     [] j.t = "object"  ->
@@ -286,7 +288,8 @@ Obj(kind, name) ==
    filepath |-> "na", bases |-> <<>>, decorators |-> <<>>, params |-> <<>>, returns |-> NoEV, value |-> NoEV,
    annotation |-> NoEV, alineno |-> "none", aendlineno |-> "none", resolved |-> FALSE]
 Dec(ev, ln) == [value |-> ev, lineno |-> ln, endlineno |-> ln]
-Par(ann, def, doc) == [annotation |-> ann, default |-> def, doc |-> doc]
+Par(ann, def, doc) == [annotation |-> ann, default |-> def, doc |-> doc, kind |-> "poskw"]
+ParK(ann, def, doc, k) == [annotation |-> ann, default |-> def, doc |-> doc, kind |-> k]
 
 \* section kinds of docstrings/models.py with the JSON type of DocstringSection.as_dict()["value"]
 SectionKinds == {"text", "parameters", "other parameters", "raises", "warns", "returns", "yields", "receives",
@@ -311,13 +314,15 @@ DocJSON(doc, full) ==
 DecJSON(dec) == JObj(("value" :> EVJSON(dec.value)) @@ ("lineno" :> LN(dec.lineno)) @@ ("endlineno" :> LN(dec.endlineno)))
 \* Parameter.as_dict
 ParJSON(p, full) ==
-  JObj(("name" :> JStr) @@ ("annotation" :> EVJSON(p.annotation)) @@ ("kind" :> JConst("positional or keyword"))
+  JObj(("name" :> JStr) @@ ("annotation" :> EVJSON(p.annotation))
+       @@ ("kind" :> JConst(IF p.kind = "kwonly" THEN "keyword-only" ELSE "positional or keyword"))
        @@ ("default" :> EVJSON(p.default)) @@ Opt(p.doc.present, "docstring", DocJSON(p.doc, full)))
 
 \* Alias.as_dict (a resolved alias still is an alias record; `if self.alias_lineno:` is a truth test)
 AliasJSON(o, full) ==
   JObj(("kind" :> JConst("alias")) @@ ("name" :> JStr) @@ ("target_path" :> JStr)
-       @@ Opt(full, "path", JStr) @@ Opt(o.alineno = "int", "lineno", JInt) @@ Opt(o.aendlineno = "int", "endlineno", JInt))
+       @@ Opt(full, "path", JStr) @@ Opt(o.alineno = "int", "lineno", JInt)
+       @@ Opt(o.aendlineno # "none", "endlineno", IF o.aendlineno = "int+" THEN JIntAfter ELSE JInt))
 
 \* what the properties of Object used by as_dict(full=True) do for the module `m` the object lives in
 \*   filepath: BuiltinModuleError when the module has no file; relative_filepath: ValueError when the module
@@ -376,6 +381,7 @@ Encode(chain, cwdrel, full) == EncodeFrom(chain, 1, cwdrel, full)
 \* =================================================================================================
 KindValues == {"module", "class", "function", "attribute", "alias"}
 Ty(j) == IF j.t = "integer" THEN "int" ELSE "none"
+TyRel(j) == IF j.t # "integer" THEN "none" ELSE IF "v" \in DOMAIN j THEN "int+" ELSE "int"   \* (see JIntAfter)
 Get(j, k) == IF k \in Keys(j) THEN j.f[k] ELSE JNull          \* obj_dict.get(k)
 
 \* _load_docstring: Docstring(**obj_dict["docstring"]) - an unexpected key is a TypeError
@@ -393,15 +399,16 @@ LoadDecs(j) == IF "decorators" \notin Keys(j) THEN <<>>
                        LET dj == j.f["decorators"].items[i]
                        IN [value |-> LoadEV(dj.f["value"]), lineno |-> Ty(dj.f["lineno"]), endlineno |-> Ty(dj.f["endlineno"])]]
 \* _load_parameter: name, annotation, kind, default are INDEXED
-LoadPar(pj) == [annotation |-> LoadEV(pj.f["annotation"]), default |-> LoadEV(pj.f["default"]), doc |-> LoadDoc(pj)]
+LoadPar(pj) == [annotation |-> LoadEV(pj.f["annotation"]), default |-> LoadEV(pj.f["default"]), doc |-> LoadDoc(pj),
+                kind |-> IF pj.f["kind"].v = "keyword-only" THEN "kwonly" ELSE "poskw"]     \* ParameterKind(obj_dict["kind"])
 
 \* keys each loader INDEXES (obj_dict["k"]) in evaluation order; everything else goes through .get
 Indexed(kind) ==
   CASE kind = "module"    -> <<"name", "filepath">>
-    [] kind = "class"     -> <<"name", "lineno", "bases">>
-    [] kind = "function"  -> <<"name", "parameters", "returns", "lineno">>
-    [] kind = "attribute" -> <<"name", "lineno">>
-    [] kind = "alias"     -> <<"name", "target_path", "lineno">>
+    [] kind = "class"     -> <<"name", "bases">>                   \* lineno: obj_dict.get("lineno")
+    [] kind = "function"  -> <<"name", "parameters", "returns">>
+    [] kind = "attribute" -> <<"name">>
+    [] kind = "alias"     -> <<"name", "target_path">>
 FirstMissing(j, ks) == LET miss == {i \in 1..Len(ks) : ks[i] \notin Keys(j)}
                        IN IF miss = {} THEN "" ELSE ks[CHOOSE i \in miss : \A k \in miss : i <= k]
 
@@ -426,19 +433,16 @@ AttachObj(o) ==
 Fail(exc, key, kind) == [ok |-> FALSE, exc |-> exc, key |-> key, kind |-> kind, chain |-> <<>>]
 Okay(chain) == [ok |-> TRUE, exc |-> "", key |-> "", kind |-> "", chain |-> chain]
 
-\* json_decoder on the MEMBERS dict {name: decoded member}: it is an ordinary JSON object for the hook, so a
-\* member called "cls" sends it to _load_expression (getattr(expressions, <object>) -> TypeError) and a member
-\* called "kind" to Kind(<object>) -> ValueError -> _load_parameter -> KeyError('name')
-HookMembers(names) ==
-  IF "cls" \in names THEN Fail("TypeError", "members:cls", "members")
-  ELSE IF "kind" \in names THEN Fail("KeyError", "members:kind", "members")
-  ELSE Okay(<<>>)
+\* json_decoder on the MEMBERS dict {name: decoded member}: it is an ordinary JSON object for the hook.  The
+\* dispatch is `isinstance(obj_dict.get("cls"), str)` / `isinstance(obj_dict.get("kind"), str)`: the values of a
+\* members dict are objects, never str, so it is returned as is whatever the members are called.
+\* (In an expression dict "cls" is tested BEFORE "kind": ExprParameter has both keys and is an expression.)
+HookMembers(names) == Okay(<<>>)
 
 HookObject(j, sub) ==
   LET kind == j.f["kind"].v
       miss == FirstMissing(j, Indexed(kind))
   IN IF miss # "" THEN Fail("KeyError", miss, kind)
-     ELSE IF kind = "module" /\ j.f["filepath"].t # "string" THEN Fail("TypeError", "filepath", kind)   \* Path(list) / Path(None)
      ELSE IF ~DocLoadable(j) THEN Fail("TypeError", "docstring", kind)
      ELSE IF kind = "function" /\ \E i \in 1..Len(j.f["parameters"].items) : ~DocLoadable(j.f["parameters"].items[i])
           THEN Fail("TypeError", "docstring", "parameter")
@@ -446,21 +450,23 @@ HookObject(j, sub) ==
        LET base == [Obj(kind, "") EXCEPT
                       !.doc = IF kind = "alias" THEN NoDoc ELSE LoadDoc(j),
                       !.labels = IF kind = "alias" THEN "empty" ELSE IF Len(Get(j, "labels").items) > 0 THEN "some" ELSE "empty"]
-           o == CASE kind = "module" -> [base EXCEPT !.filepath = "path"]
+           \* _load_module: list -> [Path, ...] (namespace package), None (built-in module), else Path
+           o == CASE kind = "module" -> [base EXCEPT !.filepath = IF j.f["filepath"].t = "array" THEN "list"
+                                                                  ELSE IF j.f["filepath"].t = "null" THEN "none" ELSE "path"]
                   [] kind = "class" ->
-                       [base EXCEPT !.lineno = Ty(j.f["lineno"]), !.endlineno = Ty(Get(j, "endlineno")),
+                       [base EXCEPT !.lineno = Ty(Get(j, "lineno")), !.endlineno = Ty(Get(j, "endlineno")),
                                     !.decorators = LoadDecs(j),
                                     !.bases = [i \in 1..Len(j.f["bases"].items) |-> LoadEV(j.f["bases"].items[i])]]
                   [] kind = "function" ->
-                       [base EXCEPT !.lineno = Ty(j.f["lineno"]), !.endlineno = Ty(Get(j, "endlineno")),
+                       [base EXCEPT !.lineno = Ty(Get(j, "lineno")), !.endlineno = Ty(Get(j, "endlineno")),
                                     !.decorators = LoadDecs(j),
                                     !.params = [i \in 1..Len(j.f["parameters"].items) |-> LoadPar(j.f["parameters"].items[i])],
                                     !.returns = LoadEV(j.f["returns"])]
                   [] kind = "attribute" ->
-                       [base EXCEPT !.lineno = Ty(j.f["lineno"]), !.endlineno = Ty(Get(j, "endlineno")),
+                       [base EXCEPT !.lineno = Ty(Get(j, "lineno")), !.endlineno = Ty(Get(j, "endlineno")),
                                     !.value = LoadEV(Get(j, "value")), !.annotation = LoadEV(Get(j, "annotation"))]
                   [] kind = "alias" ->
-                       [base EXCEPT !.alineno = Ty(j.f["lineno"]), !.aendlineno = Ty(Get(j, "endlineno"))]
+                       [base EXCEPT !.alineno = Ty(Get(j, "lineno")), !.aendlineno = TyRel(Get(j, "endlineno"))]
            \* members are set and their expressions re-attached only by _load_module and _load_class
            \* (a class additionally attaches its own expressions to itself; its container overrides that)
            kids == IF kind \in {"module", "class"} /\ Len(sub) > 0
@@ -485,14 +491,15 @@ Decode(j) == LET r == DecodeFrom(j) IN IF r.ok THEN Okay(<<[r.chain[1] EXCEPT !.
 \* =================================================================================================
 \* 6. The case space
 \* =================================================================================================
-VARIABLES part,                                                   \* "shape" | "expr" | "doc"
+VARIABLES dfield,                                                 \* field of a dataclass host: "na" | "plain" | "kw_true" | "kw_expr"
+          part,                                                   \* "shape" | "expr" | "doc"
           origin, kind, host, mname, doc, cwdrel,                 \* object level
           bases, deco, pann, pdef, pdoc, ret, val, ann, where,    \* kind specific alternatives
           alno, resolved,
           slot, spine, leaf,                                      \* expr part
           section,                                                \* doc part
           pc, chain, enc, dec, reenc, obs                         \* the run
-casevars == <<part, origin, kind, host, mname, doc, cwdrel, bases, deco, pann, pdef, pdoc, ret, val, ann, where,
+casevars == <<dfield, part, origin, kind, host, mname, doc, cwdrel, bases, deco, pann, pdef, pdoc, ret, val, ann, where,
               alno, resolved, slot, spine, leaf, section>>
 vars == <<casevars, pc, chain, enc, dec, reenc, obs>>
 
@@ -522,31 +529,40 @@ CaseChoice ==
        /\ kind \in (IF origin = "namespace" THEN {"root", "module", "function"}
                     ELSE IF origin = "builtin" THEN {"root", "class", "function", "attribute"}
                     ELSE {"root", "module", "class", "function", "attribute", "alias"})
-       /\ host \in IF kind \in {"root", "module"} \/ origin \in {"namespace", "builtin"} THEN {"none"} ELSE {"none", "class"}
+       \* host "dataclass": the focus is the __init__ the dataclasses extension synthesises from one field
+       /\ host \in IF kind \in {"root", "module"} \/ origin \in {"namespace", "builtin"} THEN {"none"}
+                    ELSE IF kind = "function" /\ origin = "static" THEN {"none", "class", "dataclass"} ELSE {"none", "class"}
+       /\ dfield \in IF host = "dataclass" THEN {"plain", "kw_true", "kw_expr"} ELSE {NA}
        \* (the members of CPython's built-in modules have the names they have)
-       /\ mname \in IF kind = "root" THEN {"pkg"} ELSE IF origin = "builtin" THEN {"x"} ELSE {"x", "kind", "cls"}
-       /\ doc \in IF kind = "alias" \/ (origin = "namespace" /\ kind = "root") THEN {"absent"}
+       /\ mname \in IF kind = "root" THEN {"pkg"} ELSE IF host = "dataclass" THEN {"__init__"}
+                     ELSE IF origin = "builtin" THEN {"x"} ELSE {"x", "kind", "cls"}
+       /\ doc \in IF kind = "alias" \/ (origin = "namespace" /\ kind = "root") \/ host = "dataclass" THEN {"absent"}
                    ELSE IF origin = "builtin" /\ kind # "root" THEN {"plain"} ELSE {"absent", "plain"}
        /\ bases \in IF kind # "class" THEN {NA} ELSE IF Inspected(origin) THEN {"none", "str"} ELSE ExprAlts
-       /\ deco \in IF kind \notin {"class", "function"} THEN {NA} ELSE IF Inspected(origin) \/ origin = "namespace" THEN {"none"} ELSE DecoAlts
-       /\ pann \in IF kind # "function" THEN {NA} ELSE IF origin = "namespace" THEN {"nopar"}
+       /\ deco \in IF kind \notin {"class", "function"} THEN {NA}
+                    ELSE IF Inspected(origin) \/ origin = "namespace" \/ host = "dataclass" THEN {"none"} ELSE DecoAlts
+       /\ pann \in IF kind # "function" THEN {NA} ELSE IF host = "dataclass" THEN {"name"} ELSE IF origin = "namespace" THEN {"nopar"}
                     ELSE IF origin = "builtin" THEN {"nopar", "none"}
                     ELSE IF Inspected(origin) THEN {"nopar", "none", "name"} ELSE ExprAlts \cup {"nopar"}
-       /\ pdef \in IF kind # "function" \/ pann = "nopar" THEN {NA} ELSE IF Inspected(origin) THEN {"none", "str"} ELSE DefAlts
+       /\ pdef \in IF kind # "function" \/ pann = "nopar" THEN {NA} ELSE IF host = "dataclass" THEN {"str"}
+                    ELSE IF Inspected(origin) THEN {"none", "str"} ELSE DefAlts
        /\ pdoc \in IF kind # "function" \/ pann = "nopar" \/ Inspected(origin) THEN {FALSE} ELSE BOOLEAN
-       /\ ret \in IF kind # "function" THEN {NA} ELSE IF origin = "builtin" THEN {"none"}
+       /\ ret \in IF kind # "function" THEN {NA} ELSE IF host = "dataclass" THEN {"str"} ELSE IF origin = "builtin" THEN {"none"}
                    ELSE IF Inspected(origin) \/ origin = "namespace" THEN {"none", "name"} ELSE ExprAlts
        /\ val \in IF kind # "attribute" THEN {NA} ELSE IF Inspected(origin) THEN {"str"} ELSE ValAlts
        /\ ann \in IF kind # "attribute" THEN {NA} ELSE IF Inspected(origin) THEN {"none"} ELSE ExprAlts
        /\ (kind = "attribute" => ~(val = "none" /\ ann = "none"))       \* `x` alone is no attribute
        /\ where \in IF kind = "attribute" /\ host = "class" /\ origin = "static" /\ val # "none" THEN {"container", "init"} ELSE {"container"}
-       /\ alno \in IF kind # "alias" THEN {NA} ELSE IF Inspected(origin) THEN {"none"} ELSE {"int"}
-       /\ resolved \in IF kind = "alias" /\ origin = "static" THEN BOOLEAN ELSE {FALSE}
+       \* how the alias came to be: single-line import, multi-line import (endlineno > lineno), expansion of a wildcard
+       \* import (a new name / overwriting a member defined above it: expand_wildcards), inspection (no line numbers)
+       /\ alno \in IF kind # "alias" THEN {NA} ELSE IF Inspected(origin) THEN {"none"}
+                    ELSE IF host = "class" THEN {"int", "span"} ELSE {"int", "span", "wild", "over"}
+       /\ resolved \in IF kind = "alias" /\ origin = "static" /\ alno \in {"int", "span"} THEN BOOLEAN ELSE {FALSE}
        /\ slot = NA /\ spine = <<>> /\ leaf = NA /\ section = NA
      ELSE IF part = "expr" THEN
        /\ origin = "static"
        /\ slot \in SlotSet /\ kind = SlotKind(slot)
-       /\ host = "none" /\ mname = "x" /\ doc = "absent"
+       /\ host = "none" /\ mname = "x" /\ doc = "absent" /\ dfield = NA
        /\ spine \in UNION {[1..n -> IF n > FullDepth THEN CoreSteps ELSE AllSteps] : n \in 0..(IF slot \in SpineSlots THEN MaxSpine ELSE 1)}
        /\ leaf \in IF Len(spine) >= 2 THEN DeepLeaves ELSE AllLeaves
        /\ SpineOK(spine, leaf)
@@ -556,7 +572,7 @@ CaseChoice ==
        /\ origin \in DocOrigins
        /\ kind \in IF origin = "static" THEN {"root", "class", "function", "attribute"} ELSE {"root", "class", "function"}
        /\ section \in SectionKinds
-       /\ host = "none" /\ mname = (IF kind = "root" THEN "pkg" ELSE "x") /\ doc = "google"
+       /\ host = "none" /\ mname = (IF kind = "root" THEN "pkg" ELSE "x") /\ doc = "google" /\ dfield = NA
        /\ bases = (IF kind = "class" THEN "none" ELSE NA) /\ deco = (IF kind \in {"class", "function"} THEN "none" ELSE NA)
        /\ pann = (IF kind = "function" THEN "nopar" ELSE NA) /\ pdef = NA /\ pdoc = FALSE
        /\ ret = (IF kind = "function" THEN "none" ELSE NA)
@@ -575,6 +591,8 @@ Root == [Obj("module", "pkg") EXCEPT
            \* (every built-in module used as a witness has a docstring)
            !.doc = IF kind = "root" THEN DocOf(origin) ELSE IF origin = "builtin" THEN Doc(FALSE, "none", "text") ELSE NoDoc]
 Host == [Obj("class", "H") EXCEPT !.lineno = LineOf(origin, "class"), !.endlineno = LineOf(origin, "class")]
+\* `@dataclass class H:` - decorated, labelled {"dataclass"}
+DataHost == [Host EXCEPT !.decorators = <<Dec(EV(Leaf("name"), "container"), "int")>>, !.labels = "some"]
 SubMod == [Obj("module", "sub") EXCEPT !.filepath = "path"]
 
 Focus ==
@@ -595,6 +613,12 @@ Focus ==
                                  THEN (IF slot = "function.param.annotation" THEN <<Par(SlotEV, NoEV, NoDoc)>>
                                        ELSE IF slot = "function.param.default" THEN <<Par(NoEV, SlotEV, NoDoc)>> ELSE <<>>)
                                  ELSE IF pann = "nopar" THEN <<>>
+                                 ELSE IF host = "dataclass"
+                                 \* _set_dataclass_init: self, then one parameter per field: annotation, default and docstring of the
+                                 \* attribute; keyword-only iff the field says kw_only=True LITERALLY
+                                 THEN <<Par(NoEV, NoEV, NoDoc),
+                                        ParK(AltExpr(pann), AltExpr(pdef), IF pdoc THEN Doc(TRUE, "none", "text") ELSE NoDoc,
+                                             IF dfield = "kw_true" THEN "kwonly" ELSE "poskw")>>
                                  ELSE <<Par(AltExpr(pann), AltExpr(pdef), IF pdoc THEN Doc(TRUE, "none", "text") ELSE NoDoc)>>,
                       !.returns = IF part = "expr" THEN (IF slot = "function.returns" THEN SlotEV ELSE NoEV) ELSE AltExpr(ret)]
        [] k = "attribute" ->
@@ -603,12 +627,16 @@ Focus ==
                                 ELSE scopeOf(AltExpr(val)),
                       !.annotation = IF part = "expr" THEN (IF slot = "attribute.annotation" THEN SlotEV ELSE NoEV) ELSE scopeOf(AltExpr(ann))]
        [] k = "alias" ->
-            [b EXCEPT !.lineno = "none", !.endlineno = "none", !.alineno = alno, !.aendlineno = alno, !.resolved = resolved]
+            [b EXCEPT !.lineno = "none", !.endlineno = "none",
+                      !.alineno = IF alno = "none" THEN "none" ELSE "int",
+                      !.aendlineno = IF alno = "none" THEN "none" ELSE IF alno = "span" THEN "int+" ELSE "int",
+                      !.resolved = resolved \/ alno \in {"wild", "over"}]
 
 MkChain ==
   IF kind = "root" THEN <<Root>>
   ELSE IF origin = "namespace" /\ kind # "module" THEN <<Root, SubMod, Focus>>
   ELSE IF host = "class" THEN <<Root, Host, Focus>>
+  ELSE IF host = "dataclass" THEN <<Root, DataHost, Focus>>
   ELSE <<Root, Focus>>
 
 \* =================================================================================================
@@ -652,7 +680,8 @@ Serialised(o) == [kind |-> o.kind, name |-> o.name, lineno |-> o.lineno, endline
                   doc |-> [present |-> o.doc.present, lineno |-> o.doc.lineno, endlineno |-> o.doc.endlineno],
                   labels |-> o.labels, filepath |-> o.filepath, alineno |-> o.alineno, aendlineno |-> o.aendlineno,
                   nbases |-> Len(o.bases), decs |-> [i \in 1..Len(o.decorators) |-> <<o.decorators[i].lineno, o.decorators[i].endlineno>>],
-                  pdocs |-> [i \in 1..Len(o.params) |-> o.params[i].doc.present]]
+                  pdocs |-> [i \in 1..Len(o.params) |-> o.params[i].doc.present],
+                  pkinds |-> [i \in 1..Len(o.params) |-> o.params[i].kind]]
 
 \* =================================================================================================
 \* 8. The clauses of C08 (invariants) and their declarative Clean-predicates
@@ -677,13 +706,9 @@ ExpressionsSame == (Done /\ obs.dec_ok) => obs.render_eq
 CleanEncode == \A i \in 1..Len(MkChain) : MkChain[i].kind = "module" =>
                   /\ MkChain[i].filepath # "none"                          \* built-in module: full form raises
                   /\ (MkChain[i].filepath = "list" => cwdrel)              \* namespace package seen from elsewhere
-CleanDecode ==
-  /\ \A i \in 1..Len(MkChain) :
-       LET o == MkChain[i]
-       IN /\ (o.kind \in {"class", "function", "attribute"} => o.lineno = "int")   \* obj_dict["lineno"]
-          /\ (o.kind = "alias" => o.alineno = "int")
-          /\ (o.kind = "module" => o.filepath = "path")                            \* Path(list) / Path(None)
-  /\ mname \notin {"kind", "cls"}                                                  \* members dict hits the dispatch keys
+\* (since the decoder reads lineno with .get, builds the file path by type and dispatches on str values only,
+\*  every document Encode produces in minimal form is decodable)
+CleanDecode == TRUE
 \* Declaratively: which trees come back with the parents the builder gave them.
 \*  - a region the walk does not visit keeps "prev" links (re-made by _load_expression) and None, nothing else
 \*  - an element of the first layer is re-attached when it is a name or an attribute chain starting with one
@@ -713,11 +738,8 @@ CleanNames == LET o == FocusOf(MkChain)
                         IF AttachedSlot(o.kind, sl.slot)
                         THEN sl.ev.scope = "container" /\ SafeTree(sl.ev.e)
                         ELSE Unvisited(sl.ev.e)          \* bases, attribute annotations: never visited
-RECURSIVE HasMarkedLambda(_)
-HasMarkedLambda(n) ==
-  IF IsScalar(n) THEN n.c = "@pk:enum:posonly"
-  ELSE \E f \in DOMAIN n.a : \E k \in 1..Len(KidsOfField(n, f)) : HasMarkedLambda(KidsOfField(n, f)[k])
-CleanRender == LET o == FocusOf(MkChain) IN \A i \in 1..Len(SlotsOf(o)) : ~HasMarkedLambda(SlotsOf(o)[i].ev.e)
+\* (the enum of lambda parameter kinds is restored on load: every expression renders as before)
+CleanRender == TRUE
 CleanFull == \A i \in 1..Len(MkChain) : Parsed(MkChain[i].doc) = <<"text">>
 
 Clean == CleanEncode /\ CleanDecode /\ CleanNames /\ CleanRender /\ CleanFull
@@ -767,7 +789,7 @@ Clean_ExpressionsSame == IsClean => ExpressionsSame
 \* 9. Case emission
 \* =================================================================================================
 CaseRec ==
-  [part |-> part, origin |-> origin, kind |-> kind, host |-> host, mname |-> mname, doc |-> doc, cwdrel |-> cwdrel,
+  [dfield |-> dfield, part |-> part, origin |-> origin, kind |-> kind, host |-> host, mname |-> mname, doc |-> doc, cwdrel |-> cwdrel,
    bases |-> bases, deco |-> deco, pann |-> pann, pdef |-> pdef, pdoc |-> pdoc, ret |-> ret, val |-> val, ann |-> ann,
    where |-> where, alno |-> alno, resolved |-> resolved, slot |-> slot, spine |-> spine, leaf |-> leaf, section |-> section,
    clean |-> obs.clean,
